@@ -11,6 +11,7 @@ claimed={
  "C09":("other","structural necessary conditions: freshness of Copy and vec results, no-mutation of arguments, pair-preserving Swap, Welford/incremental recurrences of Mean, GeoMean, Variance, weighted forms, decision lists for empty/degenerate input, vec element formulas; not rounding-error closeness","effect analysis (A) + C-swap + recurrence/formula conformance (B)"),
  "C10":("other","structural necessary conditions: R8 formula, clamping decision list, weighted scan recurrence, IQR, no-mutation; not monotonicity/order independence","formula conformance (engine B) + effect analysis (A) + integer discipline (D)"),
  "C11":("other","structural necessary conditions: result plumbing and clamps, method selection, the greedy accumulation as a system of recurrences (left bias, neighbour re-reads, loop condition, Ambiguous), the normal-approximation band/trim/fix-up formulas, SampleCI's order-to-value mapping and guards; not the probabilistic guarantees (Confidence >= c, minimality, nesting)","recurrence-system and formula conformance with case-split equivalence of gating functions"),
+ "C12":("other","structural necessary conditions: Bandwidth-only write, lazy default, exhaustive kernel switch, boundary decision lists, weighted kernel average with pdfEach/cdfEach sibling agreement, PDF = d/dx CDF image by image in all four boundary branches, Epanechnikov formulas and polynomial derivative, bandwidth rules, Bounds' bisection targets/margins/clipping; not mass-1/monotonicity/convergence","image-set differentiation on normal forms + formula conformance + effect analysis"),
  "C13":("other","structural necessary conditions: value of every receiver field at exit of Add/Combine equals the online/pairwise-merge formula in three regimes; derived statistics; Combine never writes its argument","field-at-exit formula conformance via reaching stores and gating functions"),
  "C05":("other","structural necessary conditions: NormalDist PDF/CDF/moments/Bounds/Rand formulas, InvCDF decision list + Acklam polynomials + Halley step, pdfEach/cdfEach sibling agreement incl. the fast path, DeltaDist, dispatch signatures; not accuracy/monotonicity","formula conformance and sibling agreement (engine B), signature rule"),
  "C06":("other","structural necessary conditions: support decision lists, PMF/CDF/moment formulas, tail-flip identity, term-ratio recurrence, floor semantics of k; not 1e-10 accuracy","formula conformance (engine B) + D-floor"),
